@@ -315,6 +315,32 @@ theorem c13_operator_bool {mode : Bool} {sc : List Act} {s : State} (h : Reachab
     have := hi.seq_fin (hdf.mp hd).1
     rw [this, hk]; rfl
 
+/-- **Kept `next()` object.** Once a consultation of a kept `auto n = gen.next(a)` has answered true (`_state`), every further
+truth test `bool(n)` / `!n` of the same object is **not a step of the generator**: it answers true and leaves the whole state —
+hence the sequence position, the body, the hand-over record — unchanged, for any number of re-consultations. (Only `co_await n`
+does not look at `_state`: it always is a fresh access, and so is a truth test of an object that has not answered true yet.) -/
+theorem c13_kept_reconsult_no_step (s : State) (hk : s.kept ≠ none) (hal : s.alive = true) (hns : inSync s = false)
+    (hst : s.kstate = true) (n : Nat) :
+    run s (List.replicate n .ktest) = s ∧ (step s .ktest).2 = .next true := by
+  have hstep : step s .ktest = (s, .next true) := by
+    simp only [step, stepKtest]
+    cases hkk : s.kept with
+    | none => exact absurd hkk hk
+    | some a => simp [hal, hns, hst]
+  refine ⟨?_, by rw [hstep]⟩
+  induction n with
+  | zero => rfl
+  | succ k ih =>
+      rw [List.replicate_succ]
+      simp only [run, List.foldl_cons, hstep]
+      exact ih
+
+/-- the flag of the kept object is set only by a consultation that was served with an item (a value or the body's exception): a
+truth test that finds the kept object "true" re-reads an access that really happened -/
+example :
+    let s := run (init false [.yield 1, .yield 2, .yield 3]) [.keep 0, .ktest, .syncEnd, .ktest, .ktest, .kawait, .ktest]
+    s.seen = [.val 1, .val 2] ∧ s.kstate = true := by decide
+
 /-- **Locals destroyed exactly once.** At any time every guard constructed by the body is either still in scope or was
 destroyed exactly once — never twice, never lost; a finished body has none in scope. -/
 theorem c13_guards_once {mode : Bool} {sc : List Act} {s : State} (h : Reachable mode sc s) (g : Nat) :
